@@ -120,7 +120,11 @@ Section Overlay.
         let parent := removelast p in
         try* ex := ovl_exists parent in
         if ex then
-          try* _ := vp_create_dir_all w (write_path parent) in Ret (Ok tt)
+          try* md := ovl_metadata parent in
+          match m_type md with
+          | File => Ret (fail EOther)
+          | Dir => try* _ := vp_create_dir_all w (write_path parent) in Ret (Ok tt)
+          end
         else Ret (fail EOther)
     end.
 
